@@ -7,7 +7,7 @@ EXPLANATION = "results of + - unary- and n* compared with the model (vertex-wise
 def gen(rng, tier):
     out = []
     for _ in range(300 if tier == "quick" else 8000):
-        G, fam = common.random_connected_graph(rng, 1, 6); n = G["n"]; big = rng.random() < 0.25
+        G, fam = common.random_connected_graph(rng, 1, 6, large_ok=True); n = G["n"]; big = rng.random() < 0.25
         D = common.random_divisor(rng, G, big=big); E = common.random_divisor(rng, G, big=big); F = common.random_divisor(rng, G)
         kind = rng.choice(["same", "copy", "copy", "mult", "redistribute", "vset", "chips"])
         G2 = G; E2 = list(D)
